@@ -15,9 +15,9 @@
      cfg_selfstack  (F12)  keep a separate stack for the self side (pushed by the union-on-left
                            and callable arms), resolve a self-side `Cycle` against it, and swap
                            the two stacks in contravariant positions
-     cfg_partial_name      (proposed, hooks/fix_partial_name.patch) ALL mode: an unnamed partial is
+     cfg_partial_name      (F29, fix 2932723) ALL mode: an unnamed partial is
                            not assignable to a named one
-     cfg_partial_any       (proposed, hooks/fix_F25_partial.patch) ANY mode: (Partial, Tuple) is
+     cfg_partial_any       (F25p, fix 7ba69a0) ANY mode: (Partial, Tuple) is
                            answered by the swapped call; a label only the pattern partial names
                            is unconstrained
    Fuel: `None` = out of fuel (the Rust recursion is bounded by the assumption set; the fuel is
@@ -292,7 +292,7 @@ Section Step.
              | _, _ => false
              end in
       if clash then Some (false, A) else all_partial_partial A ss ps fields1 fields2
-    (* proposed ANY-mode arm: overlap is symmetric *)
+    (* ANY-mode arm added by 7ba69a0: overlap is symmetric *)
     | TPartial _ _, TTuple _ =>
       if cfg_partial_any cfg && (match mode with Any => true | All => false end)
       then rec A ps ss pattern_id self_id
@@ -342,9 +342,9 @@ Fixpoint check_rel (cfg : rel_cfg) (P : registry) (mode : union_mode) (fuel : na
 (* the code as found at the pinned commit / with the proposed repairs *)
 Definition legacy_cfg : rel_cfg := mk_cfg false false false false.
 Definition f7_cfg : rel_cfg := mk_cfg true false false false.
-Definition fixed_cfg : rel_cfg := mk_cfg true true false false.          (* = /repo since 2246a47 *)
-Definition partial_cfg : rel_cfg := mk_cfg true true true true.          (* + the two proposed partial repairs *)
-Definition current_cfg : rel_cfg := fixed_cfg.
+Definition fixed_cfg : rel_cfg := mk_cfg true true false false.          (* /repo at 2246a47 (F7, F12 repaired) *)
+Definition partial_cfg : rel_cfg := mk_cfg true true true true.          (* + 2932723 (F29) and 7ba69a0 (F25p) *)
+Definition current_cfg : rel_cfg := partial_cfg.                         (* = /repo today *)
 
 (* types.rs:204-215 / 223-234 *)
 Definition is_compatible_with (cfg : rel_cfg) (fuel : nat) (P : registry) (a b : nat) : option bool :=
